@@ -23,8 +23,9 @@ OPS = {
     'b': ['calc', 'A1=1', 'A3=2', 'compile'],
     'eng': ['calc', 'N=5', 'N=-3', 'compile'],
     'circ': ['calc', 'G=0', 'X=4'],
+    'd': ['calc', 'G3=11', 'G1:G5=1..5', 'compile-G'],
 }
-PRE = {'a': ['RATE=5', 'B1=100'], 'b': ['A2=err', 'T!A1=ok'], 'eng': ['N=200', 'N=5'], 'circ': ['G=0', 'X=4']}
+PRE = {'a': ['RATE=5', 'B1=100'], 'b': ['A2=err', 'T!A1=ok'], 'eng': ['N=200', 'N=5'], 'circ': ['G=0', 'X=4'], 'd': ['B1=8', 'A1:C2=block']}
 B = M.B
 
 
@@ -32,7 +33,10 @@ def model_eng():
     K, cell, op, fn, num, const = M.K, M.cell, M.op, M.fn, M.num, M.const
     return {'raw': {
         "'[b.xlsx]S'!A1": 9, "'[b.xlsx]S'!A2": "=DEC2BIN('[b.xlsx]S'!A1)", "'[b.xlsx]S'!A3": "=BIN2DEC('[b.xlsx]S'!A2)+1",
-        "'[b.xlsx]S'!A4": "=DEC2HEX('[b.xlsx]S'!A1*3)&\"|\"&DEC2OCT('[b.xlsx]S'!A1)", "'[b.xlsx]S'!B1:B2": "='[b.xlsx]S'!A1*{1;2}"}}
+        "'[b.xlsx]S'!A4": "=DEC2HEX('[b.xlsx]S'!A1*3)&\"|\"&DEC2OCT('[b.xlsx]S'!A1)", "'[b.xlsx]S'!B1:B2": "='[b.xlsx]S'!A1*{1;2}",
+        # wholly constant array formulas entered in ranges larger than their result: padding comes from the array's own fill value
+        "'[b.xlsx]S'!D1:F2": "={1,2}", "'[b.xlsx]S'!D4:F4": "=ISNUMBER({1,\"a\"})", "'[b.xlsx]S'!D6:F7": "=ISERROR({1;2})",
+        "'[b.xlsx]S'!H1": "=SUM(IFERROR('[b.xlsx]S'!D1:F2,100))+COUNTIF('[b.xlsx]S'!D4:F4,FALSE)"}}
 
 
 def circ_dict():
@@ -42,7 +46,7 @@ def circ_dict():
 
 def fresh(model):
     import formulas
-    if model in ('a', 'b'):
+    if model in ('a', 'b', 'd'):
         return c07.fresh(model)
     if model == 'eng':
         return formulas.ExcelModel().from_dict(dict(model_eng()['raw']))
@@ -55,7 +59,7 @@ def apply(m, model, name):
     """-> canonical observable result"""
     import numpy as np
     from xl.evalcell import classify_array
-    if model in ('a', 'b'):
+    if model in ('a', 'b', 'd'):
         if name == 'refinish':
             m.finish(complete=False)
             return 'none'
